@@ -732,7 +732,8 @@ def _check_copy(R, h, hp, expr, line, tparams):
             continue
         # src re-quantized with the destination's qtype, axis and scale
         if isinstance(s, ast.Attribute) and s.attr == fld and isinstance(s.value, ast.Call) and U(s.value.func).endswith("Quantizer.apply"):
-            a = [U(z) for z in s.value.args]
+            from .core import strip_noop_calls as _snc
+            a = [U(_snc(z)) if i_ == 0 else U(z) for i_, z in enumerate(s.value.args)]  # `.contiguous()` of the broadcast source is the same values
             # the plain source is broadcast to the destination first (copy_ accepts any source that broadcasts), or handed over as it is
             if a[1:] == [f"{dest}.qtype", f"{dest}.axis", f"{dest}._scale"] and a[0] in (src, f"{src}.expand({dest}.size())", f"{src}.expand({dest}.shape)", f"{src}.expand_as({dest})", f"{src}.broadcast_to({dest}.shape)", f"{src}.broadcast_to({dest}.size())"):
                 continue
@@ -776,7 +777,29 @@ def schema_writeback(repo: Repo, name: str):
     nodes = list(ast.walk(fn))
     if not any(isinstance(x, ast.Attribute) and x.attr == "_schema" and U(x.value) == opn for x in nodes):
         return None
-    facts = {"mi": mi, "fn": fn, "schema": any(isinstance(x, ast.Attribute) and x.attr == "is_write" for x in nodes) and any(isinstance(x, ast.Attribute) and x.attr == "alias_info" for x in nodes)}
+    # the schema analysis may live in a helper of the module that receives the op (`written_arguments(op)`)
+    helpers = []
+    schema_names = {t.id for st in nodes if isinstance(st, ast.Assign) and U(st.value) == f"{opn}._schema" for t in st.targets if isinstance(t, ast.Name)}
+    for x in nodes:
+        if isinstance(x, ast.Call) and isinstance(x.func, ast.Name) and any(U(a) in (opn, f"{opn}._schema") or (isinstance(a, ast.Name) and a.id in schema_names) for a in x.args):
+            r = repo.resolve(mi, x.func.id)
+            if r is not None and isinstance(r[1], ast.FunctionDef) and r[1] is not fn:
+                helpers.append(r[1])
+    scan = nodes + [y for h_ in helpers for y in ast.walk(h_)]
+    facts = {"mi": mi, "fn": fn, "schema": any((isinstance(x, ast.Attribute) and x.attr == "is_write") or (isinstance(x, ast.Constant) and x.value == "is_write") for x in scan) and any(isinstance(x, ast.Attribute) and x.attr == "alias_info" for x in scan)}
+    # a memo of that analysis is keyed by the overload: the packet name (`_schema.name` is "aten::max" for max.out, max.dim_max, max.unary_out) is coarser
+    facts["coarse_key"] = None
+    for h_ in helpers + [fn]:
+        hn = list(ast.walk(h_))
+        aliases = {t.id for st in hn if isinstance(st, ast.Assign) and isinstance(st.value, ast.Attribute) and st.value.attr == "name" and U(st.value.value).endswith("._schema") for t in st.targets if isinstance(t, ast.Name)}
+        for x in hn:
+            key = None
+            if isinstance(x, ast.Subscript) and isinstance(x.value, ast.Name) and x.value.id.isupper():
+                key = x.slice
+            elif isinstance(x, ast.Call) and isinstance(x.func, ast.Attribute) and x.func.attr in ("get", "setdefault", "pop") and isinstance(x.func.value, ast.Name) and x.func.value.id.lstrip("_").isupper() and x.args:
+                key = x.args[0]
+            if key is not None and (U(key).endswith("._schema.name") or (isinstance(key, ast.Name) and key.id in aliases)):
+                facts["coarse_key"] = (x.lineno, U(key), h_.name)
     # the re-issued operation
     facts["reissue"] = None
     out_name = None
@@ -786,18 +809,55 @@ def schema_writeback(repo: Repo, name: str):
             star = any(isinstance(a, ast.Starred) for a in c.args)
             dstar = any(k.arg is None for k in c.keywords)
             deq = any(isinstance(x, ast.Call) and isinstance(x.func, ast.Attribute) and x.func.attr == "dequantize" for x in nodes)
-            facts["reissue"] = (c.lineno, star, dstar, deq)
-            if isinstance(st, ast.Assign) and isinstance(st.targets[0], ast.Name):
-                out_name = st.targets[0].id
+            inner = c.args and isinstance(c.args[0], ast.Attribute) and c.args[0].attr in ("_scale", "_data", "_zeropoint")
+            if inner:
+                # the mutating op applied to an inner tensor of a destination: per-tensor views hold the same scale object as their base
+                facts.setdefault("inner_ops", []).append((c.lineno, U(c)[:60]))
+                continue
+            if facts["reissue"] is None or (star and dstar and not (facts["reissue"][1] and facts["reissue"][2])):
+                facts["reissue"] = (c.lineno, star, dstar, deq)
+                if isinstance(st, ast.Assign) and isinstance(st.targets[0], ast.Name):
+                    out_name = st.targets[0].id
+    # the module-level functions the fallback is split into (one level): the loops below may live in them
+    region = [fn]
+    for x in nodes:
+        if isinstance(x, ast.Call) and isinstance(x.func, ast.Name):
+            r = repo.resolve(mi, x.func.id)
+            if r is not None and isinstance(r[1], ast.FunctionDef) and r[1] is not fn and r[0] is mi and r[1] not in region:
+                region.append(r[1])
+    rnodes = [y for f_ in region for y in ast.walk(f_)]
     # the list of (destination, stand-in) pairs
     pairs = None
-    for x in nodes:
+    for x in rnodes:
         if isinstance(x, ast.Call) and isinstance(x.func, ast.Attribute) and x.func.attr == "append" and isinstance(x.func.value, ast.Name) and x.args and isinstance(x.args[0], ast.Tuple) and len(x.args[0].elts) == 2:
             pairs = x.func.value.id
     facts["pairs"] = pairs
+    # the conditions under which a destination is recorded: beyond "the schema marks the argument as written" and "it is a quantized tensor", a test
+    # on the IDENTITY of the value (`id(value) not in seen`) skips a tensor that was first met under a name the op only reads (torch.add(q, p, out=q))
+    facts["record_guards"] = []
+
+    def find_append(body, guards):
+        for st in body:
+            if isinstance(st, ast.If):
+                find_append(st.body, guards + [st.test])
+                find_append(st.orelse, guards + [ast.UnaryOp(op=ast.Not(), operand=st.test)])
+            elif isinstance(st, (ast.For, ast.While, ast.With, ast.Try)):
+                find_append(getattr(st, "body", []), guards)
+            elif isinstance(st, ast.FunctionDef):
+                find_append(st.body, guards)
+            else:
+                for x in ast.walk(st):
+                    if isinstance(x, ast.Call) and isinstance(x.func, ast.Attribute) and x.func.attr == "append" and isinstance(x.func.value, ast.Name) and x.func.value.id == pairs:
+                        facts["record_guards"] = [U(g) for g in guards]
+
+    if pairs is not None:
+        for f_ in region:
+            if not facts["record_guards"]:
+                find_append(f_.body, [])
     # the copies
     copies = []
     quant = None
+    depth = [0]
 
     def walk_loop(body, dname, guards):
         nonlocal quant
@@ -815,9 +875,20 @@ def schema_writeback(repo: Repo, name: str):
                         copies.append((c.lineno, list(guards)))
                         if c.args:
                             quant = (c.args[0], dname)
+                    elif isinstance(c, ast.Call) and isinstance(c.func, ast.Name) and any(U(a) == dname for a in c.args) and depth[0] < 2:
+                        # the write of one destination moved into a helper of the module: follow the destination into it
+                        callee = next((f_ for f_ in region[1:] if f_.name == c.func.id), None)
+                        if callee is not None:
+                            cp = positional_params(callee)
+                            idx = next(i for i, a in enumerate(c.args) if U(a) == dname)
+                            if idx < len(cp):
+                                depth[0] += 1
+                                walk_loop(callee.body, cp[idx], guards)
+                                depth[0] -= 1
 
-    for lp in nodes:
-        if isinstance(lp, ast.For) and pairs is not None and U(lp.iter) == pairs and isinstance(lp.target, ast.Tuple) and len(lp.target.elts) == 2 and isinstance(lp.target.elts[0], ast.Name):
+    for lp in rnodes:
+        # a loop over the recorded pairs (the list itself, or the parameter of a helper that receives it)
+        if isinstance(lp, ast.For) and pairs is not None and isinstance(lp.iter, ast.Name) and isinstance(lp.target, ast.Tuple) and len(lp.target.elts) == 2 and isinstance(lp.target.elts[0], ast.Name):
             walk_loop(lp.body, lp.target.elts[0].id, [])
     facts["copies"] = copies
     # the scale of what is copied
@@ -832,6 +903,7 @@ def schema_writeback(repo: Repo, name: str):
             r = repo.resolve(mi, src.func.id)
             if r is not None and isinstance(r[1], ast.FunctionDef):
                 hp = positional_params(r[1])
+                facts["quant_helper"] = r[1]
                 # the destination is the helper's parameter that receives `dname`
                 dpar = next((hp[i] for i, a in enumerate(src.args) if U(a) == dname and i < len(hp)), None)
                 for p in paths_of(r[1]):
@@ -847,9 +919,9 @@ def schema_writeback(repo: Repo, name: str):
             v = st.value
             if isinstance(v, ast.Name) and v.id == out_name:
                 kinds.add("raw")
-            elif isinstance(v, ast.Call) and isinstance(v.func, ast.Name) and any(isinstance(d, ast.FunctionDef) and d.name == v.func.id for d in fn.body):
-                d = next(d for d in fn.body if isinstance(d, ast.FunctionDef) and d.name == v.func.id)
-                hands_back = any(isinstance(x, ast.Compare) and len(x.ops) == 1 and isinstance(x.ops[0], ast.Is) for x in ast.walk(d)) and any(isinstance(x, ast.For) and U(x.iter) == pairs for x in ast.walk(d))
+            elif isinstance(v, ast.Call) and isinstance(v.func, ast.Name) and (any(isinstance(d, ast.FunctionDef) and d.name == v.func.id for d in fn.body) or any(d.name == v.func.id for d in region[1:])):
+                d = next((d for d in fn.body if isinstance(d, ast.FunctionDef) and d.name == v.func.id), None) or next(d for d in region[1:] if d.name == v.func.id)
+                hands_back = any(isinstance(x, ast.Compare) and len(x.ops) == 1 and isinstance(x.ops[0], ast.Is) for x in ast.walk(d)) and any(isinstance(x, ast.For) and isinstance(x.iter, ast.Name) for x in ast.walk(d))
                 kinds.add("mapped" if hands_back else "other")
             else:
                 kinds.add("other")
@@ -948,7 +1020,7 @@ def _dispatch_rules(repo: Repo, hs) -> List[Rec]:
             args = [U(a) for a in expr.args]
             kws = [(k.arg, U(k.value)) for k in expr.keywords]
             lookup = f"{getter}({opn}.overloadpacket)"
-            kw_forms = ([(None, kwn)], [(None, f"{kwn} or {{}}")])
+            kw_forms = ([(None, kwn)], [(None, f"{kwn} or {{}}")], [(None, f"dict({kwn} or {{}})")], [(None, f"{{}} if {kwn} is None else {kwn}")], [(None, f"{kwn} if {kwn} is not None else {{}}")], [(None, f"dict({kwn})")])
             if f == lookup:
                 ok = args == [f"*{argsn}"] and kws in kw_forms
                 fact = p.holds(f"{lookup} is None")
@@ -967,6 +1039,17 @@ def _dispatch_rules(repo: Repo, hs) -> List[Rec]:
                     ri = sw["reissue"]
                     if not fwd:
                         R("C05.R8", "bad", ci.mod, expr, qn, "write-back fallback call", f"schema-driven write-back fallback called as `{U(expr)[:80]}`: the overload (its schema is read) and *args/**kwargs are not forwarded", "any mutating op without a handler")
+                    elif sw.get("coarse_key"):
+                        ck = sw["coarse_key"]
+                        R("C05.R8", "bad", ci.mod, expr, qn, "schema analysis memoised per packet name", f"`{ck[2]}` memoises what the schema says under `{ck[1]}` (line {ck[0]}): `_schema.name` is the same for every overload of a packet, whose written arguments differ",
+                          "torch.max(q, out=o) then torch.max(q, 0, out=(values, indices)): the second call looks for a destination named `out`, `values` is left stale, no error")
+                    elif any("id(" in g_ for g_ in sw.get("record_guards", [])):
+                        g_ = next(g_ for g_ in sw["record_guards"] if "id(" in g_)
+                        R("C05.R8", "bad", ci.mod, expr, qn, "write-back fallback records a destination once per identity", f"`{f}` records a written argument only under `{g_[:60]}`: a tensor first met under a name the op only reads is never recorded when it comes again as the destination",
+                          "torch.add(q, p, out=q), torch.clamp(q, min=0, out=q), torch.cumsum(q, 0, out=q): q keeps its old values, no error")
+                    elif sw.get("inner_ops"):
+                        R("C05.R8", "bad", ci.mod, expr, qn, "write-back fallback applies the op to an inner tensor", f"`{f}` applies the mutating op to an inner tensor of the destination at line {sw['inner_ops'][0][0]} (`{sw['inner_ops'][0][1]}`): a per-tensor view holds the scale object of its base, so the whole base is rescaled",
+                          "q[0].mul_(2.0) / q[0:1, :2] *= 2 on a per-tensor tensor: every element of q is doubled")
                     elif ri is None or not sw["schema"]:
                         R("C05.R8", "unknown", ci.mod, expr, qn, "write-back fallback call", f"`{f}` reads the schema of the op but the re-issued call / the written-argument test were not recognised")
                     elif not (ri[1] and ri[2]):
